@@ -55,6 +55,7 @@ inline void Exec::data_new() {
         gen_shape(type, rows, cols, ok);
         F = c.chance(1, 10) ? -1 : (int)c.range(0, 6);
         if (F < 0) ok = false;
+        if (type < 0) type = 11;      // inline function compiled into this C++ unit: keep the value inside the enum's range
         c.note("vnadata_alloc_and_init(%s, %s,%d,%d,%d)%s", d->has_fn ? "fn" : "NULL", type_name(type), rows, cols, F, ok ? "" : "  [invalid]");
         Call k = mk("vnadata_alloc_and_init", ok ? XP_OK : XP_FAIL, C_USAGE, ok ? "valid" : "bad-shape");
         k.log = d->log.get(); k.has_fn = d->has_fn;
@@ -120,7 +121,7 @@ inline void Exec::data_getters(int i) {
         ccall(k, [&] { return vnadata_get_cell(v, fi, r, cc); });
     }
     { Call k = mk("vnadata_get_frequency", fok ? XP_OK : XP_FAIL, C_USAGE, fok ? "valid" : "bad-index", O_DATA, i); dcall(k, [&] { return vnadata_get_frequency(v, fi); }); }
-    { Call k = mk("vnadata_get_matrix", fok ? (R * Cc > 0 ? XP_OK : XP_EITHER) : XP_FAIL, C_USAGE, fok ? "valid" : "bad-index", O_DATA, i); pcall<dcx>(k, [&] { return vnadata_get_matrix(v, fi); }); }
+    { Call k = mk("vnadata_get_matrix", fok ? (R * Cc > 0 ? XP_OK : XP_EITHER) : XP_FAIL, C_USAGE, fok ? "valid" : "bad-index", O_DATA, i); if (R * Cc > 0) pcall<dcx>(k, [&] { return vnadata_get_matrix(v, fi); }); else pcall0<dcx>(k, [&] { return vnadata_get_matrix(v, fi); }); }
     {
         bool ok = rok && cok;
         Buf<dcx> vec((size_t)F);
@@ -132,10 +133,10 @@ inline void Exec::data_getters(int i) {
         Call k = mk("vnadata_get_z0", ok ? XP_OK : XP_FAIL, C_USAGE, !pok ? "bad-index" : perf ? "fz0-in-use" : "valid", O_DATA, i);
         ccall(k, [&] { return vnadata_get_z0(v, p); });
         Call k2 = mk("vnadata_get_z0_vector", perf ? XP_FAIL : (P > 0 ? XP_OK : XP_EITHER), C_USAGE, perf ? "fz0-in-use" : "valid", O_DATA, i);
-        pcall<const dcx>(k2, [&] { return vnadata_get_z0_vector(v); });
+        if (P > 0) pcall<const dcx>(k2, [&] { return vnadata_get_z0_vector(v); }); else pcall0<const dcx>(k2, [&] { return vnadata_get_z0_vector(v); });
     }
     { bool ok = fok && pok; Call k = mk("vnadata_get_fz0", ok ? XP_OK : XP_FAIL, C_USAGE, ok ? "valid" : "bad-index", O_DATA, i); ccall(k, [&] { return vnadata_get_fz0(v, fi, p); }); }
-    { Call k = mk("vnadata_get_fz0_vector", fok ? (P > 0 ? XP_OK : XP_EITHER) : XP_FAIL, C_USAGE, fok ? "valid" : "bad-index", O_DATA, i); pcall<const dcx>(k, [&] { return vnadata_get_fz0_vector(v, fi); }); }
+    { Call k = mk("vnadata_get_fz0_vector", fok ? (P > 0 ? XP_OK : XP_EITHER) : XP_FAIL, C_USAGE, fok ? "valid" : "bad-index", O_DATA, i); if (P > 0) pcall<const dcx>(k, [&] { return vnadata_get_fz0_vector(v, fi); }); else pcall0<const dcx>(k, [&] { return vnadata_get_fz0_vector(v, fi); }); }
     // fmin/fmax with no frequencies: vnadata(3) is silent
     { Call k = mk("vnadata_get_fmin", F > 0 ? XP_OK : XP_EITHER, C_USAGE, F > 0 ? "valid" : "no-frequencies", O_DATA, i); dcall(k, [&] { return vnadata_get_fmin(v); }); }
     { Call k = mk("vnadata_get_fmax", F > 0 ? XP_OK : XP_EITHER, C_USAGE, F > 0 ? "valid" : "no-frequencies", O_DATA, i); dcall(k, [&] { return vnadata_get_fmax(v); }); }
@@ -540,6 +541,8 @@ inline void Exec::op_prop() {
         static const char *const bad[] = {"a: [1, 2\n", "{a: 1", "a: 'x\n", "- a\nb: 1\n", "\t- x: [\n"};
         bool good = !yfiles.empty() && !c.chance(1, 3);
         std::string text = good ? yfiles[c.draw(yfiles.size())] : std::string(bad[c.draw(sizeof bad / sizeof *bad)]);
+        // a map entry with a non-scalar key is skipped with a WARNING (vnaproperty.3): a valid document
+        if (!good && c.chance(1, 4)) { text = "a: 1\n? [x, y]\n: 2\nb: 3\n"; good = true; }
         bool from_file = c.boolean(), hf = !c.chance(1, 5);
         c.note("vnaproperty_import_yaml_from_%s(p%d, %s, %s)", from_file ? "file" : "string", i, good ? "own export" : ascii(text).c_str(), hf ? "fn" : "NULL");
         Call k = mk(from_file ? "vnaproperty_import_yaml_from_file" : "vnaproperty_import_yaml_from_string", good ? XP_OK : XP_FAIL, C_SYNTAX, good ? "valid" : "yaml-syntax", O_PROP, i);
